@@ -74,6 +74,8 @@ def bit_concat(*partials):
         for at in reversed(partials):
             at.__set__(s, v & at._mask)
             v = v >> at._bitsize
+        if v not in (0, -1):
+            raise ValueError("value does not fit in the concatenated field")
 
     bitsize = sum(at._bitsize for at in partials)
     signed = partials[0]._signed
